@@ -135,6 +135,9 @@ type Prod struct {
 	// Pre (kind "stall"): this producer runs to completion before the Filter
 	// goroutines and the other producers start (it fills the ring).
 	Pre bool `json:"pre,omitempty"`
+	// FF (kind "fresh"): the goroutine's first call on the fresh Logger is one
+	// Filter(nil,0); it logs its entries after that.
+	FF bool `json:"ff,omitempty"`
 }
 
 func (p *Prod) typeOf(i int) int { return p.Types[i%len(p.Types)] }
@@ -147,6 +150,10 @@ type Filterer struct {
 	// Until (kind "stall"): keep calling until every producer has finished
 	// (at least once, at most Calls times).
 	Until bool `json:"until,omitempty"`
+	// Late (kind "fresh"): the goroutine does not take part in the first use of
+	// the Logger; it starts once the first call of some other goroutine has
+	// returned.
+	Late bool `json:"late,omitempty"`
 }
 
 // Case is the replayable unit.
@@ -166,6 +173,14 @@ type Filterer struct {
 //	              then the other producers log back to back while the Filter
 //	              goroutines keep the logger goroutine busy ("until": as long as
 //	              a producer is running).
+//	kind "fresh": like "conc", run on Repeat FRESH loggers: nobody touches a
+//	              Logger between NewLogger and the moment its producers and
+//	              Filter goroutines (all but the "late" ones) leave a spin
+//	              barrier together, so the very first calls on the Logger (Log
+//	              of a producer, Filter(nil,0) of a producer with "ff", the
+//	              first Filter of a Filter goroutine) are issued at the same
+//	              moment by 2..8 goroutines. Spin is the number of barrier
+//	              polls between two yields.
 type Case struct {
 	Kind string `json:"kind"`
 	N    int    `json:"n"`
@@ -175,7 +190,8 @@ type Case struct {
 	Filters []Flt      `json:"filters,omitempty"`
 	Prods   []Prod     `json:"prods,omitempty"`
 	Filts   []Filterer `json:"filts,omitempty"`
-	Repeat  int        `json:"repeat,omitempty"` // conc, stall: number of runs of the configuration (default 1)
+	Repeat  int        `json:"repeat,omitempty"` // conc, stall, fresh: number of runs of the configuration, each on a new Logger (default 1)
+	Spin    int        `json:"spin,omitempty"`   // fresh: barrier polls between two yields
 	Total   int        `json:"total,omitempty"`  // long: number of Log calls (Logs is repeated cyclically)
 	Fat     bool       `json:"fat,omitempty"`    // stall: owners are 32 KB values compared by value
 	Desc    string     `json:"desc,omitempty"`
@@ -249,6 +265,8 @@ var (
 	statStallLogs    atomic.Int64 // kind "stall": Log calls of a main-phase producer that took >= 1 ms (queue full, logger busy)
 	statStallFilters atomic.Int64 // kind "stall": Filter calls issued while producers were running
 	statLongLogs     atomic.Int64 // kind "long": Log calls issued
+	statFreshLoggers atomic.Int64 // kind "fresh": loggers whose first calls came from goroutines released together
+	statFreshRelaxed atomic.Int64 // kind "fresh": cases in which the barrier's poll budget ran out (starved machine)
 )
 
 func maxInto(a *atomic.Int64, v int64) {
@@ -714,6 +732,37 @@ func validateConc(c *Case) error {
 			return fmt.Errorf("harness: bad producer %+v", p)
 		}
 	}
+	if c.Kind != "fresh" {
+		for _, p := range c.Prods {
+			if p.FF {
+				return fmt.Errorf("harness: ff producers only in kind fresh")
+			}
+		}
+		for _, f := range c.Filts {
+			if f.Late {
+				return fmt.Errorf("harness: late filterers only in kind fresh")
+			}
+		}
+	} else {
+		first := 0
+		for _, p := range c.Prods {
+			if p.Count < 1 {
+				return fmt.Errorf("harness: a producer of kind fresh logs at least one entry")
+			}
+			first++
+		}
+		for _, f := range c.Filts {
+			if f.Calls < 1 {
+				return fmt.Errorf("harness: a filterer of kind fresh calls at least once")
+			}
+			if !f.Late {
+				first++
+			}
+		}
+		if first < 2 || c.Spin < 1 {
+			return fmt.Errorf("harness: kind fresh needs >= 2 goroutines at the barrier and spin >= 1")
+		}
+	}
 	if c.Kind != "stall" {
 		if c.Fat {
 			return fmt.Errorf("harness: fat owners only in kind stall")
@@ -742,6 +791,183 @@ func validateConc(c *Case) error {
 	return nil
 }
 
+// spinBarrier releases n goroutines at the same moment, round after round:
+// in round i every goroutine announces itself on one counter and polls it until
+// all n have announced themselves i+1 times. The polling goroutines hold their
+// processors, so when the last one arrives they leave within one cache miss of
+// each other (a closed channel would wake them one after the other through the
+// scheduler). After every `spin` polls a goroutine yields so that more
+// goroutines than processors still get through. The goroutines stay on their
+// processors from one round to the next, so while the operating system runs
+// their threads at the same time many rounds pass back to back.
+type spinBarrier struct {
+	n      int64
+	spin   int
+	ready  atomic.Int64
+	broken atomic.Bool // a participant left, or the yield budget ran out
+	gaveUp atomic.Bool
+	// relaxed: some goroutine has spent its poll budget for this case (on a
+	// starved machine the threads are rarely on a processor at the same time and
+	// every round costs milliseconds); from then on nobody waits any more, the
+	// remaining first calls are simply issued as the goroutines get to them. Any
+	// interleaving is a legal one, so the oracle is unaffected; the number of
+	// such cases is reported.
+	relaxed atomic.Bool
+}
+
+// barrierPolls: polls one goroutine may spend waiting in one case (some tens
+// of milliseconds of processor time).
+const barrierPolls = 20 << 20
+
+// barrierYields: a goroutine that has yielded this often in ONE round gives up
+// (a participant is stuck; tens of seconds of yielding). Not a verdict: the
+// watchdog decides whether a call hangs inside go9p, otherwise the case is
+// inconclusive.
+const barrierYields = 1 << 25
+
+func newSpinBarrier(n, spin int) *spinBarrier {
+	if spin < 1 {
+		spin = 1
+	}
+	if n > runtime.GOMAXPROCS(0)-1 && spin > 1000 {
+		spin = 1000 // more goroutines than processors: the pollers must make room
+	}
+	return &spinBarrier{n: int64(n), spin: spin}
+}
+
+// wait returns false when the barrier was abandoned.
+func (b *spinBarrier) wait(round int, polls *int) bool {
+	tgt := b.n * int64(round+1)
+	b.ready.Add(1)
+	yields := 0
+	for i := 1; b.ready.Load() < tgt; i++ {
+		if b.relaxed.Load() {
+			return true
+		}
+		if *polls++; *polls > barrierPolls {
+			b.relaxed.Store(true)
+			statFreshRelaxed.Add(1)
+			return true
+		}
+		if i%b.spin == 0 {
+			if b.broken.Load() {
+				return false
+			}
+			if yields++; yields > barrierYields {
+				b.gaveUp.Store(true)
+				b.broken.Store(true)
+				return false
+			}
+			runtime.Gosched()
+		}
+	}
+	return true
+}
+
+// preState is what the first use of a fresh Logger (kind "fresh") left behind:
+// every producer without "ff" has logged its entry #0, every producer with
+// "ff" has issued its Filter(nil,0), every Filter goroutine that is not "late"
+// has made its call 0, whose result (as keys) is filt0[g].
+type preState struct {
+	filt0 [][]int
+}
+
+var errBarrier = fmt.Errorf("harness: spin barrier abandoned")
+
+// runFresh: Repeat fresh loggers. Phase 1: the producers and the Filter
+// goroutines that are not "late" are persistent goroutines; for logger i they
+// leave round i of the spin barrier together and make their first call on it,
+// the first calls that Logger sees. Phase 2: every logger then gets the rest of
+// the configuration (the remaining entries and calls, plus the late Filter
+// goroutines) and the final convergence, see runConcOn.
+func runFresh(c *Case, ws []worker) error {
+	if err := validateConc(c); err != nil {
+		return err
+	}
+	P, F, R := len(c.Prods), len(c.Filts), c.Repeat
+	lgs := make([]*go9p.Logger, R)
+	pre := make([]preState, R)
+	for i := range lgs {
+		if lgs[i] = go9p.NewLogger(c.N); lgs[i] == nil {
+			return fmt.Errorf("NewLogger(%d) returned nil", c.N)
+		}
+		pre[i].filt0 = make([][]int, F)
+	}
+	statFreshLoggers.Add(int64(R))
+	var part []int // worker index: producer p, or P+g for Filter goroutine g
+	for p := 0; p < P; p++ {
+		part = append(part, p)
+	}
+	for g := 0; g < F; g++ {
+		if !c.Filts[g].Late {
+			part = append(part, P+g)
+		}
+	}
+	bar := newSpinBarrier(len(part), c.Spin)
+	r := &concRun{c: c}
+	all := FP{0, 0}
+	errs := make([]error, P+F)
+	var wg sync.WaitGroup
+	for _, j := range part {
+		wg.Add(1)
+		go func(j int) {
+			defer wg.Done()
+			done := false
+			defer func() {
+				if !done {
+					bar.broken.Store(true) // left early: release the others
+				}
+			}()
+			defer func() {
+				if x := recover(); x != nil {
+					errs[j] = fmt.Errorf("panic in the first call of goroutine %d: %v", j, x)
+				}
+			}()
+			w := ws[j]
+			polls := 0
+			for i := 0; i < R; i++ {
+				if !bar.wait(i, &polls) {
+					return
+				}
+				lg := lgs[i]
+				if j < P {
+					pr := &c.Prods[j]
+					if !pr.FF {
+						w.logv(lg, key(j, 0), c.logOwner(pr.O), pr.typeOf(0))
+					} else if _, err := r.check(w.filterv(lg, nil, 0), all); err != nil {
+						errs[j] = fmt.Errorf("fresh logger %d of %d: producer %d, first call: %v", i+1, R, j, err)
+						return
+					}
+				} else {
+					f := c.Filts[j-P].Params[0]
+					keys, err := r.check(w.filterv(lg, c.fltOwner(f.O), f.T), f)
+					if err != nil {
+						errs[j] = fmt.Errorf("fresh logger %d of %d: filter goroutine %d call 0: %v", i+1, R, j-P, err)
+						return
+					}
+					pre[i].filt0[j-P] = keys
+				}
+			}
+			done = true
+		}(j)
+	}
+	wg.Wait()
+	for _, e := range errs {
+		if e != nil {
+			return fmt.Errorf("N=%d: %v", c.N, e)
+		}
+	}
+	if bar.gaveUp.Load() {
+		return errBarrier
+	}
+	for i := range lgs {
+		if err := runConcOn(c, ws, lgs[i], &pre[i]); err != nil {
+			return fmt.Errorf("fresh logger %d of %d: %v", i+1, R, err)
+		}
+	}
+	return nil
+}
+
 // runConc executes the configuration once. ws has len(Prods)+len(Filts)+1 workers.
 func runConc(c *Case, ws []worker) error {
 	if err := validateConc(c); err != nil {
@@ -751,6 +977,13 @@ func runConc(c *Case, ws []worker) error {
 	if lg == nil {
 		return fmt.Errorf("NewLogger(%d) returned nil", c.N)
 	}
+	return runConcOn(c, ws, lg, nil)
+}
+
+// runConcOn runs the configuration on lg. With first (kind "fresh") the first
+// calls have been made already (see preState): producers and Filter goroutines
+// continue after them.
+func runConcOn(c *Case, ws []worker, lg *go9p.Logger, first *preState) error {
 	r := &concRun{c: c, lg: lg}
 	P, F := len(c.Prods), len(c.Filts)
 	total := 0
@@ -763,6 +996,7 @@ func runConc(c *Case, ws []worker) error {
 	results := make([][][]int, F) // every result of every filterer, as keys
 	keep := c.N <= leanAbove
 	stall := c.Kind == "stall"
+	all := FP{0, 0}
 	var running atomic.Int32 // producers of the main phase that have not finished
 	producer := func(p int, start chan struct{}, wg *sync.WaitGroup) {
 		defer wg.Done()
@@ -774,8 +1008,12 @@ func runConc(c *Case, ws []worker) error {
 		}()
 		pr, w := &c.Prods[p], ws[p]
 		owner := c.logOwner(pr.O)
+		i0 := 0
+		if first != nil && !pr.FF {
+			i0 = 1 // entry #0 was the first call
+		}
 		<-start
-		for i := 0; i < pr.Count; i++ {
+		for i := i0; i < pr.Count; i++ {
 			if stall && !pr.Pre {
 				// evidence only: Log calls that found the queue full for >= 1 ms
 				t0 := time.Now()
@@ -820,8 +1058,16 @@ func runConc(c *Case, ws []worker) error {
 			}()
 			fl, w := &c.Filts[g], ws[P+g]
 			var prev []int
+			k0 := 0
+			if first != nil && !fl.Late {
+				// call 0 was the first call
+				k0, prev = 1, first.filt0[g]
+				if keep {
+					results[g] = append(results[g], prev)
+				}
+			}
 			<-start
-			for k := 0; k < fl.Calls; k++ {
+			for k := k0; k < fl.Calls; k++ {
 				if fl.Until && k > 0 && running.Load() == 0 {
 					break
 				}
@@ -866,7 +1112,6 @@ func runConc(c *Case, ws []worker) error {
 	// Filter(nil,0) result for good, so R1 == R2 proves that every call in
 	// between saw the ring R1 and must equal the matching entries of R1.
 	w := ws[P+F]
-	all := FP{0, 0}
 	why := ""
 	for round := 1; round <= convergeRounds; round++ {
 		res := w.filterv(lg, nil, 0)
